@@ -175,6 +175,17 @@ def api_traces(chk, bindir, scenario, sets=(44, 65, 87), outdir=None, **kw):
     return {s: os.path.join(outdir, "api_%s_%d.ndjson" % (scenario, s)) for s in sets}
 
 
+def crossset_leg(chk, bindir, rounds=3):
+    """All three parameter sets interleaved in ONE process, sharing seeds and rho between sets: what one set did before must
+    not change what another computes (state kept in statics, caches shared between instantiations of generic code)."""
+    outdir = os.path.join(chk.workdir, "crossset")
+    vlib.drive(bindir, "api", scenario="crossset", seed=chk.seed, rounds=rounds, out=outdir)
+    tr = {"crossset-%d" % s: os.path.join(outdir, "api_crossset_%d.ndjson" % s) for s in (44, 65, 87)}
+    n = validate_api(chk, tr, key_of=lambda e: "crossset:" + e.get("ev", ""))
+    chk.leg("three parameter sets interleaved in one process (shared seeds and rho)", events=n)
+    return n
+
+
 def validate_api(chk, traces, key_of=None, nproc=6, max_rejects=4, timeout=1800):
     """Validate traces against Layer A.  A rejected line is a violation (with that line as the
     replay); the line is then removed and the rest of the trace is validated again."""
